@@ -3,24 +3,27 @@
 /verif/seeded/Cxx<v>/ with meta.json (detection status comes from the last seedcheck output)."""
 import sys,os,shutil,json,re
 p,v,t=sys.argv[1:4]
-src='/tmp/seed/out_%s'%p; dst='/verif/seeded/%s%s'%(p,v)
+pfx=sys.argv[4] if len(sys.argv)>4 else "out_"
+dv=sys.argv[5] if len(sys.argv)>5 else v
+pkg=sys.argv[6] if len(sys.argv)>6 else "test"
+src='/tmp/seed/%s%s'%(pfx,p); dst='/verif/seeded/%s%s'%(p,dv)
 os.makedirs(dst,exist_ok=True)
 shutil.copy(src+'/%s.diff'%v,dst+'/patch.diff')
 shutil.copy(src+'/%s_demo_test.go'%v,dst+'/demo_test.go')
 md=open(src+'/%s.md'%v).read()
 shutil.copy(src+'/%s.md'%v,dst+'/author_notes.md')
-chk='/tmp/seed/check_%s%s.txt'%(p,v)
+chk='/tmp/seed/check_%s%s%s.txt'%(pfx if pfx!='out_' else '',p,v)
 det=[]; viol=[]
 if os.path.exists(chk):
     for l in open(chk):
         if l.startswith('DETECTED_BY:'): det=[x for x in l.split(':',1)[1].split() if x!='none']
         m=re.match(r'\s+violation: (\S+\|[^ ]*)',l)
         if m and m.group(1) not in viol: viol.append(m.group(1))
-meta={"property":p,"variant":v,"origin":"independent sub-agent given only the property text and a scratch worktree of /repo HEAD (with the fix: commits)",
- "demo":{"file":"demo_test.go","place":"test/ (any *_test.go name)","run":"go test -vet=off -count=1 -run %s ./test/"%t},
+meta={"property":p,"variant":dv,"round":2 if pfx!="out_" else 1,"origin":"independent sub-agent given only the property text and a scratch worktree of /repo HEAD (with the fix: commits)",
+ "demo":{"file":"demo_test.go","place":pkg+"/ (any *_test.go name)","run":"go test -vet=off -count=1 -run %s ./%s/"%(t,pkg)},
  "needs_to_manifest":"see author_notes.md",
  "verified":["patch applies to /repo HEAD and builds","full suite: 445/445 baseline tests pass with the patch","demo FAILS with the patch","demo PASSES without the patch"],
- "ran":"tools/seedverify.sh patch.diff demo_test.go test %s ; tools/seedcheck.sh patch.diff"%t,
- "detected_by_properties":det,"first_reports":viol[:6]}
+ "ran":"tools/seedverify.sh patch.diff demo_test.go %s %s ; tools/seedcheck.sh patch.diff"%(pkg,t),
+ "detected_by_properties":det,"detected_at_first_sight":det,"first_reports":viol[:6]}
 json.dump(meta,open(dst+'/meta.json','w'),indent=1)
 print(dst,det)
